@@ -1,5 +1,5 @@
 (* C05 — Explicit Euler step equals states + dt * rhs. *)
-From GX Require Import Base Expr Topo Ode Target Sem Codegen Load Valid Run Carriers Theory Examples.
+From GX Require Import Base Expr Topo Ode Target Sem Codegen Load Valid MirrorValid Run Carriers Theory Examples.
 From Coq Require Import QArith.
 Close Scope Q_scope.
 Open Scope string_scope.
@@ -38,11 +38,33 @@ Theorem C05_rationals_satisfy_the_ring_laws : RingLaws QcOps.
 Proof. exact QcOps_ring. Qed.
 Print Assumptions C05_rationals_satisfy_the_ring_laws.
 
+(* the mirror of schemes.explicit_euler is a verified compiler: for every well-formed model (wf_gen with
+   dt reserved) it generates a function that passes the validator and returns
+   states[i] + dt * (meaning of d<state i>_dt) in slot i, for every carrier with commutative + and * *)
+Theorem C05_mirror_euler_is_correct_for_every_well_formed_model :
+  forall (T : Type) (N : NumOps T) (o : ode) ru name order ss f (inp : inputs T),
+    CommOps N ->
+    sorted_states o = Some ss -> wf_gen o ss true = true ->
+    gen_euler o ru name order = Some f ->
+    sizes_ok o ss inp ->
+    valid_euler o ss inp true f = true
+    /\ exists out,
+        exec N f true inp = Some out
+        /\ length out = length ss
+        /\ forall i s, nth_error ss i = Some s ->
+             exists sv fv,
+               nth_error (in_states inp) i = Some sv
+               /\ Sem N o ss inp true (deriv_name_of s) fv
+               /\ nth_error out i = Some (add N sv (mul N (in_dt inp) fv)).
+Proof. exact @mirror_euler_correct. Qed.
+Print Assumptions C05_mirror_euler_is_correct_for_every_well_formed_model.
+
 (* non-vacuity *)
 Example C05_example :
   valid_euler ex_ode ex_ss ex_inp true (ex_euler false) = true
   /\ valid_rhs ex_ode ex_ss ex_inp true (ex_rhs false) = true
   /\ states_clean ex_ode ex_ss ex_inp true = true
   /\ reserved_free ex_ode ex_inp true = true
+  /\ wf_gen ex_ode ex_ss true = true
   /\ exec QcOps (ex_euler false) true ex_inp <> None.
 Proof. vm_compute. repeat split; try (intro; discriminate). Qed.
